@@ -5,7 +5,7 @@
 (* harness instantiates per program (a line inside the loop, a line inside the subroutine).             *)
 EXTENDS Integers, Sequences, SequencesExt, TLC, Json, IOUtils
 CONSTANT MaxLen
-WhenRunning == {"pause", "wait", "setBpsA", "setBpsB", "setBpsNone"}
+WhenRunning == {"pause", "wait", "setBpsA", "setBpsB", "setBpsNone", "probe"}   \* probe = read the Registers scope of the running machine
 WhenStopped == {"continue", "stepIn", "next", "stepOut", "setBpsA", "setBpsB", "inspect"}
 After(view, a) == CASE a \in {"pause", "wait"} -> "stopped"
                     [] a = "continue" -> "running"
@@ -15,7 +15,8 @@ Scripts(view, n) ==
   IF n = 0 THEN {<<>>}
   ELSE {<<>>} \cup UNION {{<<a>> \o q : q \in Scripts(After(view, a), n - 1)} : a \in (IF view = "running" THEN WhenRunning ELSE WhenStopped)}
 (* scripts that end in a state-changing request only (a trailing setBps/inspect observes nothing new) *)
-Useful(q) == q # <<>> /\ q[Len(q)] \notin {"setBpsA", "setBpsB", "setBpsNone", "inspect"}
+Useful(q) == /\ q # <<>> /\ q[Len(q)] \notin {"setBpsA", "setBpsB", "setBpsNone", "inspect", "probe"}
+             /\ \A n \in 1..Len(q) : q[n] = "probe" => (n > 1 /\ q[n - 1] \in {"setBpsA", "setBpsB"})   \* a probe anchors a breakpoint just installed
 All == {[bps0 |-> b, script |-> q] : b \in {"None", "A", "B"}, q \in {q \in Scripts("running", MaxLen) : Useful(q)}}
 VARIABLE x
 Init == x = 0 /\ ndJsonSerialize(IOEnv.OUT, SetToSeq(All)) /\ PrintT(<<"CASES", Cardinality(All)>>)
